@@ -987,13 +987,26 @@ func topoOrder(fn *ssa.Function, loops map[*ssa.BasicBlock]*loopInfo) []*ssa.Bas
 	reach := reachableBlocks(fn)
 	var order []*ssa.BasicBlock
 	seen := map[*ssa.BasicBlock]bool{}
+	depth := func(b *ssa.BasicBlock) int {
+		n := 0
+		for _, li := range loops {
+			if li.body[b] {
+				n++
+			}
+		}
+		return n
+	}
 	var visit func(b *ssa.BasicBlock)
 	visit = func(b *ssa.BasicBlock) {
 		if seen[b] {
 			return
 		}
 		seen[b] = true
-		for _, s := range b.Succs {
+		// loop exits are visited first so that (after reversal) a loop's body is laid out
+		// contiguously right after its header and the code after the loop follows it
+		succs := append([]*ssa.BasicBlock{}, b.Succs...)
+		sort.SliceStable(succs, func(i, j int) bool { return depth(succs[i]) < depth(succs[j]) })
+		for _, s := range succs {
 			if li := loops[s]; li != nil && li.backPreds[b] {
 				continue
 			}
